@@ -375,6 +375,10 @@ func runMain(args []string) int {
 // crashSite names the fatal error and the first b6 frame of a dead worker's stderr.
 func crashSite(st string) string {
 	kind := "unknown"
+	if strings.Contains(st, "WARNING: DATA RACE") {
+		// the race detector (only in binaries built with -race, GORACE=halt_on_error=1) stopped the worker
+		return "data-race@" + PanicSite(st)
+	}
 	for _, line := range strings.Split(st, "\n") {
 		if strings.HasPrefix(line, "fatal error:") || strings.HasPrefix(line, "panic:") {
 			kind = strings.TrimSpace(line)
